@@ -107,7 +107,7 @@ namespace TAO_PEGTL_NAMESPACE
                   case analyze_type::sor: {
                      bool a = true;
                      for( const auto& r : entry.second.subs ) {
-                        a = a && work( find( r ), accum );
+                        a = work( find( r ), accum ) && a;
                      }
                      return a;
                   }
